@@ -35,6 +35,33 @@ type restStore struct {
 	mut map[uint64]func(*raft.Log)
 	// failStores > 0: the next StoreLogs calls fail without storing anything
 	failStores int
+	// delGate, if set, is called by DeleteRange before the underlying store is touched (it may
+	// park the caller: a compaction in progress on another goroutine)
+	delGate func(min, max uint64)
+	// afterGet, if set, is called after every successful GetLog with the index read
+	afterGet func(i uint64)
+}
+
+func (r *restStore) DeleteRange(min, max uint64) error {
+	r.mu.Lock()
+	g := r.delGate
+	r.mu.Unlock()
+	if g != nil {
+		g(min, max)
+	}
+	return r.LogStore.DeleteRange(min, max)
+}
+
+func (r *restStore) setGate(g func(min, max uint64)) {
+	r.mu.Lock()
+	r.delGate = g
+	r.mu.Unlock()
+}
+
+func (r *restStore) setAfterGet(f func(i uint64)) {
+	r.mu.Lock()
+	r.afterGet = f
+	r.mu.Unlock()
 }
 
 var errInjectedStore = errors.New("injected store failure")
@@ -55,11 +82,15 @@ func (r *restStore) StoreLog(l *raft.Log) error { return r.StoreLogs([]*raft.Log
 func (r *restStore) GetLog(i uint64, l *raft.Log) error {
 	err := r.LogStore.GetLog(i, l)
 	r.mu.Lock()
-	defer r.mu.Unlock()
 	if err == nil {
 		if m := r.mut[i]; m != nil {
 			m(l)
 		}
+	}
+	ag := r.afterGet
+	r.mu.Unlock()
+	if err == nil && ag != nil {
+		ag(i)
 	}
 	return err
 }
@@ -87,6 +118,7 @@ type Node struct {
 	LogicalLast uint64
 	closers     []func()
 	block       chan struct{} // if non-nil, reportFn waits on it
+	entered     chan struct{} // if non-nil, reportFn signals here before it waits on block
 	// per middleware instance (reset by Restart): what the counters should say
 	CPStored, Delivered, MismatchWritten, MismatchRead uint64
 	CounterFail                                        string
@@ -123,9 +155,15 @@ func (n *Node) startMiddleware() {
 	n.Coll = metrics.NewAtomicCollector(verifier.MetricDefinitions)
 	n.V = verifier.NewLogStore(n.rest, isCheckpoint, func(r verifier.VerificationReport) {
 		n.mu.Lock()
-		b := n.block
+		b, e := n.block, n.entered
 		n.mu.Unlock()
 		if b != nil {
+			if e != nil {
+				select {
+				case e <- struct{}{}:
+				default:
+				}
+			}
 			<-b
 		}
 		n.mu.Lock()
